@@ -2,7 +2,6 @@
 package main
 
 import (
-	"syscall"
 	"bufio"
 	"compress/gzip"
 	"encoding/json"
@@ -15,6 +14,7 @@ import (
 	"strconv"
 	"strings"
 	"sync"
+	"syscall"
 	"time"
 
 	"verif/gen"
@@ -28,22 +28,22 @@ type Variant struct {
 
 // Prop describes one registered property check.
 type Prop struct {
-	Variants []Variant // default: one unnamed variant
-	ID      string
-	N       uint64 // universe size: thorough runs [0,N)
-	Quick   int    // number of seed-chosen indices in the quick tier
+	Variants   []Variant // default: one unnamed variant
+	ID         string
+	N          uint64 // universe size: thorough runs [0,N)
+	Quick      int    // number of seed-chosen indices in the quick tier
 	QuickFixed uint64 // indices below it are part of every quick run (fixed grid); the seed-chosen subset comes on top
-	Build   string // worker build variant: "", "race", "cover"
-	Env     []string
-	Workers int
-	Rule    string
-	Assume  []string
-	Init    func(w *W)
-	Run     func(w *W, i uint64)
-	Finish  func(w *W)
-	Pre     func(p *Prop) // supervisor side, before workers start
-	Post    func(p *Prop) // supervisor side, after the verdict
-	Triage  func(f *Failure) string // attributes a baseline failure to an open finding ("" = unexplained)
+	Build      string // worker build variant: "", "race", "cover"
+	Env        []string
+	Workers    int
+	Rule       string
+	Assume     []string
+	Init       func(w *W)
+	Run        func(w *W, i uint64)
+	Finish     func(w *W)
+	Pre        func(p *Prop)           // supervisor side, before workers start
+	Post       func(p *Prop)           // supervisor side, after the verdict
+	Triage     func(f *Failure) string // attributes a baseline failure to an open finding ("" = unexplained)
 	// Exhaustive reports whether the thorough tier enumerates its stated finite domain completely.
 	Exhaustive bool
 	// NoList: failures of this property are never suppressed by exact lists (only by Known()).
